@@ -61,5 +61,9 @@ HEdits(b) == {b} \cup {Upto(b, i - 1) \o From(b, i + 1) : i \in 1..Len(b)}
              \cup {Upto(b, i) \o <<t>> \o From(b, i + 1) : i \in 0..Len(b), t \in 1..Len(HToks)}
 HdrV == {[k |-> "clheader", line |-> HLine(ts)] : ts \in UNION {[1..n -> 1..11] : n \in 0..3} \cup UNION {HEdits(b) : b \in HBases}}
 
-ASSUME Emit(SetToSeq(HdrV) \o SetToSeq(VAcc \cup WildV \cup ByHashV \cup GetDscV \cup CompV \cup XzV \cup LoadFileV \cup FileV) \o SetToSeq(ArchsV))
+\* 9. a source that fails once (transient read error) after `at` bytes of a plain two-paragraph document
+FaultDoc == <<80, 58, 32, 97, 10, 86, 58, 32, 49, 10, 10, 80, 58, 32, 98, 10, 86, 58, 32, 50, 10>>      \* "P: a\nV: 1\n\nP: b\nV: 2\n"
+SrcFaultV == {[k |-> "srcfault", doc |-> FaultDoc, at |-> a] : a \in {0, 3, 5, 14, 15, 16, 20, 21}}
+
+ASSUME Emit(SetToSeq(SrcFaultV) \o SetToSeq(HdrV) \o SetToSeq(VAcc \cup WildV \cup ByHashV \cup GetDscV \cup CompV \cup XzV \cup LoadFileV \cup FileV) \o SetToSeq(ArchsV))
 =============================================================================
